@@ -7,7 +7,8 @@ graph  : nodes joined by `;` (node id = position):
            P | R/<kind>/<base>/<sel>/<len>/<mode>/<acc>/<invs>/<port> | G/<pValue>/<copies> | C/<pValue>/<cmdValue>
          kind: I<l|b><s|u> | M<l|b><s|u>.<lsb>.<msb> | F<l|b> | S | B      sel: - | <node>*<offset>
          mode: WT|WA|NC   acc: RO|WO|RW   invs: - | n,n,..
-device : <memhex>/<noAccess>/<noWrite>/<rejW>   ranges `a+l,..` or `-`; rejW `k,..` or `-`
+device : <memhex>/<noAccess>/<noWrite>/<rejW>[/<rejP>]   ranges `a+l,..` or `-`; rejW `k,..` or `-`;
+         rejP `k:m:<junkhex>,..` or `-` (non-atomic rejection of write attempt k)
 ops    : joined by `;`: v/n  s/n/<val>  r/n/<buflen>  w/n/<hex>  e/n  d/n  pr/n/a/l  pw/n/a/<hex>  cc  a/n
          val: i<int> | f<width>.<bits> | x<hex>
 answer : <results joined by ,>#<final image hex>#<access log oldest first>
@@ -77,11 +78,19 @@ def parseRange (s : String) : Option (Int × Nat) :=
   | [a, l] => do pure ((← a.toInt?), (← l.toNat?))
   | _ => none
 
+def parsePartial (s : String) : Option (Nat × (Nat × Bytes)) :=
+  match s.splitOn ":" with
+  | [k, m, junk] => do pure ((← k.toNat?), ((← m.toNat?), (← hexToBytes junk)))
+  | _ => none
+
 def parseDev (s : String) : Option Dev :=
   match s.splitOn "/" with
   | [mem, na, nw, rej] => do
     pure ⟨← hexToBytes mem, ← parseList parseRange na ",", ← parseList parseRange nw ",",
-      ← parseList (·.toNat?) rej ",", 0, []⟩
+      ← parseList (·.toNat?) rej ",", [], 0, []⟩
+  | [mem, na, nw, rej, rp] => do
+    pure ⟨← hexToBytes mem, ← parseList parseRange na ",", ← parseList parseRange nw ",",
+      ← parseList (·.toNat?) rej ",", ← parseList parsePartial rp ",", 0, []⟩
   | _ => none
 
 def parseVal (s : String) : Option Val :=
